@@ -122,6 +122,13 @@ CHECKS = {
                      'argument / command / prefix strings (refused, or exactly one CRLF line that parses back); CrossHair on splitLines '
                      'and Message.__str__ with symbolic bytes/str contents',
                 note='trusted: z3/pathex, CrossHair, the reference split in harness/c18.py; round trip demanded only for arguments the IRC grammar can represent'),
+    'C19': dict(engine='pathex', technique=TECH, ref='DESIGN.md 4/C19',
+                text='bounded symbolic execution of the real node Protocol and its (de)serialisation: two Protocol instances under their '
+                     'own managers wired back to back, the byte stream cut at positions that are z3 Ints (around every delimiter, at '
+                     'the start) or coarse choices, 1-2 (thorough: 3) events in flight, firewalls, both directions at once; hostile '
+                     'packets: 14 JSON mutations and every metadata key that manager.py/events.py/values.py read from an event '
+                     '(computed from the AST of the current source) with hostile values; dump/load round trip over a grammar',
+                note='trusted: z3/pathex; the sender coroutine is advanced by the harness; one recorded known finding (a raising remote handler never answers)'),
 }
 
 NOT_YET = {
